@@ -24,7 +24,7 @@ TRUSTED = [
 ASSUME = [
     "NAT hops sit on outgoing routes only (as nat.cpp's own comment requires)",
     "a UDP receive is attributed to the earlier sends with the same destination endpoint and payload (ids make payloads distinct modulo 256); the reported sender must be the translated endpoint of one of them",
-    "metamorphic comparison is address-blind inside one NAT group (several nodes behind one external address are told apart by the specs/nat.py clauses, not by the twin comparison)",
+    "metamorphic comparison is address-blind inside one NAT group = the addresses behind NAT hops together with the external addresses of all NAT hops of their outgoing routes, groups sharing an address merged (several nodes behind one external address, and which of two NAT hops of one route wins, are decided by the specs/nat.py clauses, not by the twin comparison)",
 ]
 
 AGG = {}
@@ -104,7 +104,7 @@ class Check(ScenarioCheck):
 
 CHECK = Check(
     "C13", ["SimVerif.Props.C13"], "kernel", gen, spec_c13, nontrivial,
-    "gen/hs_gen.py families natmix / natudp / hs and net_gen udp / mixed: NAT placement none, client side, both sides, several nodes behind ONE external address (same ext=), random per address; UDP datagrams between natted and public nodes (equal ports on different nodes, truncating and non-blocking receives), TCP connections with data both ways, all three accept overloads; each scenario with a NAT hop also runs as a NAT-free twin for the metamorphic comparison. non-trivial = an external address was observed by a receiver / accepted socket; distinct = distinct implementation trace",
+    "gen/hs_gen.py families natmix / natudp / hs and net_gen udp / mixed: NAT placement none, client side, both sides, several nodes behind ONE external address (same ext=), random per address; a second NAT hop on ~15% of the natted routes (right behind the first or behind the access queue: the LAST one counts); UDP datagrams between natted and public nodes (equal ports on different nodes, truncating and non-blocking receives; senders bound to port 0 or not bound at all (implicit bind, endpoint learnt from `local` after the first send)), TCP connections with data both ways and the endpoint views queried again from I/O completion handlers, all three accept overloads; each scenario with a NAT hop also runs as a NAT-free twin for the metamorphic comparison. non-trivial = an external address was observed by a receiver / accepted socket; distinct = distinct implementation trace",
     TRUSTED, ASSUME, spec_scn=True)
 
 
